@@ -465,6 +465,53 @@ def run(ctx):
               'misfit/gradient, so the replaced model would report the old '
               'results', ctx.where(rm, cc[0] if cc else rs))
     ctx.floor('C18.Q2.routing', 4)
+    # what a real run writes, decided over the three functions: `forward`
+    # writes the data that compute(observed=True) produced (with the
+    # requested noise), misfit / gradient write the synthetic data, the
+    # misfit and the gradient of the same simulation object
+    fsel = find("_f_, __ = _t_['function'], __", rs) or \
+        find("_f_ = _t_['function']", rs)
+    osel = find("_o_ = {'configuration': __}", rs)
+    dry = find("_d_ = _t_['dry_run']", rs) or find(
+        "_d_ = _t_.get('dry_run', __)", rs)
+    simv = find('_s_ = simulations.Simulation(__)', rs) or find(
+        '_s_ = simulations.Simulation(survey=__, model=__, verb=__, **__)',
+        rs)
+    ctx.anchor(fsel and osel and simv, 'function / output / simulation '
+               'locals of cli.run')
+    F, O, S = fsel[0][1]['_f_'], osel[0][1]['_o_'], simv[0][1]['_s_']
+    dnames = {b['_d_'] for _, b in dry} | {'dry_run'}
+    want = {'forward': {'data': f'{S}.data.observed'},
+            'misfit': {'data': f'{S}.data.synthetic',
+                       'misfit': f'{S}.misfit',
+                       'n_observations': f'{S}.survey.count'},
+            'gradient': {'data': f'{S}.data.synthetic',
+                         'misfit': f'{S}.misfit',
+                         'n_observations': f'{S}.survey.count',
+                         'gradient': f'{S}.gradient'}}
+    for fv, exp in want.items():
+        env = {F: fv}
+        env.update({d: False for d in dnames})
+        fe = FiniteEval(env, where=rm.rel)
+        got = {}
+        for st in sorted((n for n in ast.walk(rs) if isinstance(
+                n, ast.Assign)), key=lambda n: n.lineno):
+            t = st.targets[0]
+            if not (isinstance(t, ast.Subscript) and ast.unparse(t.value)
+                    == O and isinstance(t.slice, ast.Constant)):
+                continue
+            try:
+                on = all(bool(fe.ev(g)) == pol
+                         for g, pol in au.guards_of(st, rs))
+            except AnalysisError:
+                on = True
+            if on:
+                got[t.slice.value] = ast.unparse(st.value)
+        ctx.check('C18.Q2.output', f'cli.run {fv}: written items', got == exp,
+                  f'a real `{fv}` run writes {got}; the API equivalent is '
+                  f'{exp}', ctx.where(rm, rs), sample={'function': fv,
+                                                       'output': got})
+    ctx.floor('C18.Q2.output', 3)
     # default of receiver_interpolation per function: the API default
     # (absent) for forward and misfit, 'linear' only for the gradient (as the
     # documentation of the configuration file says)
@@ -588,6 +635,39 @@ def run(ctx):
                   'rejected instead of the terminal value taking precedence',
                   ctx.where(pm, c))
     ctx.need(nq4 >= 20, f'only {nq4} configuration-key extractions seen')
+    # a parsed section is handed on whenever it has content: its hand-over
+    # depends on the section itself only, never on OTHER options (the other
+    # option may be stored in a loaded simulation, or be the API default)
+    ret = [n for n in ast.walk(fn) if isinstance(n, ast.Return)]
+    odicts = {x.id for r_ in ret for x in ast.walk(r_)
+              if isinstance(x, ast.Name)}
+    for a in ast.walk(fn):
+        if isinstance(a, ast.Assign) and isinstance(a.value, ast.Dict) and \
+                isinstance(a.targets[0], ast.Name) and \
+                a.targets[0].id in odicts:
+            odicts |= {v.id for v in a.value.values
+                       if isinstance(v, ast.Name)}
+    nho = 0
+    for a in ast.walk(fn):
+        if not (isinstance(a, ast.Assign) and isinstance(
+                a.targets[0], ast.Subscript) and isinstance(
+                    a.targets[0].value, ast.Name) and
+                a.targets[0].value.id in odicts and isinstance(
+                    a.targets[0].slice, ast.Constant) and
+                isinstance(a.value, ast.Name) and
+                str(a.targets[0].slice.value).endswith('_opts')):
+            continue
+        nho += 1
+        other = [ast.unparse(t) for t, _p in au.guards_of(a, fn)
+                 if {x.id for x in ast.walk(t) if isinstance(x, ast.Name)}
+                 - {a.value.id, W.cfg} - set(dir(__import__('builtins')))]
+        ctx.check('C18.Q2.handover', f'parser hands on '
+                  f'`{a.targets[0].slice.value}`', not other,
+                  f'the options of this section are only handed on if '
+                  f'`{other[0] if other else ""}`: in every other case the '
+                  'section is accepted and silently ignored',
+                  ctx.where(pm, a))
+    ctx.floor('C18.Q2.handover', 3)
     # Q5
     for var, sec in sorted(W.remainders.items()):
         ctx.check('C18.Q5.unknown', f'[{sec}] remainder `{var}` raises',
